@@ -142,35 +142,149 @@ def write_skeleton(flags):
 # ------------------------------------------------------------ std-library sessions
 STD_MODS = ["units::stoney", "units::planck", "extra::algebra", "math::constants", "core::strings",
             "units::bit", "math::number_theory", "units::si", "math::statistics", "units::hartree",
-            "core::lists", "physics::constants", "units::time", "math::geometry", "core::functions", "core::scalar"]
-# (code, requires, provides, once)   requires/provides: names; "mod:<m>" = module m imported (transitively)
+            "core::lists", "physics::constants", "units::time", "math::geometry", "core::functions", "core::scalar",
+            "core::quantities", "units::si", "core::quantities"]
+# (code, requires, provides, once).  Tokens: "mod:<m>" = module m imported (transitively); "name" = name defined;
+# "name:sort" = name defined with that sort of value (s scalar, q quantity whose REPRESENTATION may matter,
+# str, list, struct, bool, n numeric function, ...).  Providing "name:sort" replaces every other sort of that
+# name, so redefinitions that change the type are tracked.  `ans` is tracked the same way ("ans:q", ...).
+SI, QU, STR, LST, SCA = "mod:units::si", "mod:core::quantities", "mod:core::strings", "mod:core::lists", "mod:core::scalar"
 STD_ITEMS = [
-    ("let v1 = 2", [], ["v1"], False), ("let v1 = 40 + 2", [], ["v1"], False),
-    ("let v2 = v1 + 1", ["v1"], ["v2"], False), ("fn f1(x) = 2 x", [], ["f1"], False),
-    ("fn f1(x) = 3 x", [], ["f1"], False), ("fn f2(x: Scalar) -> Scalar = x + v1", ["v1", "mod:core::scalar"], ["f2"], False),
+    # variables, redefinitions (also with a different type)
+    ("let v1 = 2", [], ["v1:s"], False), ("let v1 = 40 + 2", [], ["v1:s"], False),
+    ("let v1 = 3 m", [SI], ["v1:q"], False), ("let v1 = \"text\"", [], ["v1:str"], False),
+    ("let v2 = v1 + 1", ["v1:s"], ["v2:s"], False), ("let v2 = v1 + 1 cm", ["v1:q", SI], ["v2:q"], False),
+    ("v1 * 2", ["v1:s"], ["ans:s"], False), ("v1 * 2", ["v1:q"], ["ans:q"], False), ("print(v1)", ["v1"], [], False),
+    # functions, redefinition with another result type, function values, where clauses
+    ("fn f1(x) = 2 x", [], ["f1:n"], False), ("fn f1(x) = 3 x", [], ["f1:n"], False),
+    ("fn f1(x) = \"<{x}>\"", [], ["f1:str"], False),
+    ("f1(3)", ["f1:n"], ["ans:s"], False), ("f1(3)", ["f1:str"], ["ans:str"], False), ("f1(2 m)", ["f1:n", SI], ["ans:q"], False),
+    ("fn f2(x: Scalar) -> Scalar = x + v1", ["v1:s", SCA], ["f2"], False), ("f2(1)", ["f2"], ["ans:s"], False),
+    ("fn w1(x) = y + 1\n  where y = 2 x", [], ["w1"], False), ("w1(2)", ["w1"], ["ans:s"], False),
+    ("fn w2(x) = a * b\n  where a = x\n  and b = 30 cm", [SI], ["w2"], False), ("w2(2 m)", ["w2"], ["ans:q"], False),
+    ("let g1 = f1", ["f1:n"], ["g1"], False), ("g1(2)", ["g1"], ["ans:s"], False),
+    # dimensions and units defined in the session, used through ans
     ("dimension Dq", [], ["Dq"], True), ("unit uq: Dq", ["Dq"], ["uq"], True), ("unit ur = 3 uq", ["uq"], ["ur"], True),
-    ("let v3 = 5 uq", ["uq"], ["v3"], False), ("v3 -> ur", ["v3", "ur"], ["ans"], False),
-    ("struct P { a: Scalar }", ["mod:core::scalar"], ["P"], True), ("let v4 = P { a: 3 }", ["P"], ["v4"], False),
-    ("v4.a", ["v4"], ["ans"], False), ("v1 * 2", ["v1"], ["ans"], False), ("f1(3)", ["f1"], ["ans"], False),
-    ("f2(1)", ["f2"], ["ans"], False), ("ans + 1", ["ans"], ["ans"], False), ("7 + 1", [], ["ans"], False),
-    ("print(v1)", ["v1"], [], False), ("print(\"hi\")", [], [], False), ("unit uw", [], ["uw"], True),
-    ("1 uw + 2 uw", ["uw"], ["ans"], False), ("@aliases(vv7) let v7 = 7", [], ["v7"], True), ("vv7", ["v7"], ["ans"], False),
-    ("let v5 = 3 meter", ["mod:units::si"], ["v5"], False), ("v5 -> cm", ["v5"], ["ans"], False),
-    ("stoney_length", ["mod:units::stoney"], ["ans"], False), ("planck_length -> m", ["mod:units::planck"], ["ans"], False),
-    ("len([1, 2])", ["mod:core::lists"], ["ans"], False), ("str_length(\"abc\")", ["mod:core::strings"], ["ans"], False),
-    ("gcd(12, 18)", ["mod:math::number_theory"], ["ans"], False), ("pi", ["mod:math::constants"], ["ans"], False),
-    ("let v6 = 2 bit", ["mod:units::bit"], ["v6"], False), ("quadratic_equation(1, 0, -1)", ["mod:extra::algebra"], ["ans"], False),
-    ("mean([1, 2, 3])", ["mod:math::statistics"], ["ans"], False), ("sqrt(16)", ["mod:core::functions"], ["ans"], False),
-    ("speed_of_light", ["mod:physics::constants"], ["ans"], False), ("2 hartree", ["mod:units::hartree"], ["ans"], False),
-    ("3 hours -> minutes", ["mod:units::time"], ["ans"], False), ("circle_area(1 m)", ["mod:math::geometry", "mod:units::si"], ["ans"], False),
+    ("let v3 = 5 uq", ["uq"], ["v3:q"], False), ("v3 -> ur", ["v3:q", "ur"], ["ans:q"], False),
+    ("3 uq * 2 ur", ["uq", "ur"], ["ans:q"], False), ("6 ur / 2 uq", ["uq", "ur"], ["ans:q"], False),
+    ("2 uq + 1 ur", ["uq", "ur"], ["ans:q"], False), ("unit uw", [], ["uw"], True), ("1 uw + 2 uw", ["uw"], ["ans:q"], False),
+    ("unit ux = 2 ans", ["ans:q"], ["ux"], True), ("3 ux", ["ux"], ["ans:q"], False),
+    # structs, also as the last result
+    ("struct P { a: Scalar }", [SCA], ["P"], True), ("let v4 = P { a: 3 }", ["P"], ["v4:struct"], False),
+    ("v4.a", ["v4:struct"], ["ans:s"], False), ("P { a: 4 }", ["P"], ["ans:struct"], False),
+    ("ans.a", ["ans:struct"], ["ans:s"], False), ("let s1 = ans", ["ans:struct"], ["s1:struct"], False),
+    ("s1.a + 1", ["s1:struct"], ["ans:s"], False),
+    # plain results and the last-result identifiers
+    ("7 + 1", [], ["ans:s"], False), ("ans + 1", ["ans:s"], ["ans:s"], False), ("_ * 2", ["ans:s"], ["ans:s"], False),
+    ("ans * 2", ["ans:q"], ["ans:q"], False), ("print(ans)", ["ans"], [], False), ("print(\"{ans} / {_}\")", ["ans"], [], False),
+    ("print(\"hi\")", [], [], False), ("@aliases(vv7) let v7 = 7", [], ["v7"], True), ("vv7", ["v7"], ["ans:s"], False),
+    # results that the automatic simplification of `interpret` rewrites (common unit factors, mixed prefixes)
+    ("2 m * 30 cm", [SI], ["ans:q"], False), ("3 km / 2 m", [SI], ["ans:q"], False),
+    ("5 km / 2 h * 30 min", [SI], ["ans:q"], False), ("2 kW * 3 h", [SI], ["ans:q"], False),
+    ("100 cm / 1 m", [SI], ["ans:q"], False), ("1 N m / 2 J", [SI], ["ans:q"], False), ("2 m + 30 cm", [SI], ["ans:q"], False),
+    ("1 km^2 / 10 m", [SI], ["ans:q"], False), ("4 m / 2 s * 3 ms", [SI], ["ans:q"], False),
+    ("let v5 = 3 meter", [SI], ["v5:q"], False), ("v5 -> cm", ["v5:q"], ["ans:q"], False), ("v5 * 20 cm", ["v5:q"], ["ans:q"], False),
+    # lines that observe the REPRESENTATION of the last result (numeric value, unit, text), directly or via a variable
+    ("value_of(ans)", ["ans:q", QU], ["ans:s"], False), ("unit_of(ans)", ["ans:q", QU], ["ans:q"], False),
+    ("value_of(_)", ["ans:q", QU], ["ans:s"], False), ("value_of(ans) + 1", ["ans:q", QU], ["ans:s"], False),
+    ("\"{ans}\"", ["ans"], ["ans:str"], False), ("\"{_} and {ans}\"", ["ans"], ["ans:str"], False),
+    ("print(value_of(ans))", ["ans:q", QU], [], False), ("print(unit_of(ans))", ["ans:q", QU], [], False),
+    ("let k1 = ans", ["ans:q"], ["k1:q"], False), ("value_of(k1)", ["k1:q", QU], ["ans:s"], False),
+    ("unit_of(k1)", ["k1:q", QU], ["ans:q"], False), ("print(\"{k1}\")", ["k1:q"], [], False), ("k1 * 2", ["k1:q"], ["ans:q"], False),
+    ("let k2 = value_of(ans)", ["ans:q", QU], ["k2:s"], False), ("k2 + 1", ["k2:s"], ["ans:s"], False),
+    ("let k3 = _", ["ans:s"], ["k3:s"], False), ("k3 * 3", ["k3:s"], ["ans:s"], False),
+    ("ans == _", ["ans:q"], ["ans:bool"], False), ("ans / unit_of(ans)", ["ans:q", QU], ["ans:q"], False),
+    # strings, lists, booleans as last results
+    ("\"abc\"", [], ["ans:str"], False), ("str_length(ans)", ["ans:str", STR], ["ans:s"], False),
+    ("str_append(ans, \"!\")", ["ans:str", STR], ["ans:str"], False), ("let t1 = ans", ["ans:str"], ["t1:str"], False),
+    ("str_length(t1)", ["t1:str", STR], ["ans:s"], False),
+    ("[2 m * 30 cm, 1 m^2]", [SI], ["ans:list"], False), ("[1, 2, 3]", [], ["ans:list"], False),
+    ("len(ans)", ["ans:list", LST], ["ans:s"], False), ("head(ans)", ["ans:list", LST], ["ans:q"], False),
+    ("let l1 = ans", ["ans:list"], ["l1:list"], False), ("len(l1)", ["l1:list", LST], ["ans:s"], False),
+    ("1 < 2", [], ["ans:bool"], False), ("if ans then 1 else 2", ["ans:bool"], ["ans:s"], False),
+    # generic and recursive functions, conditionals
+    ("fn idq<D: Dim>(x: D) -> D = x", [], ["idq"], False), ("idq(2 m * 30 cm)", ["idq", SI], ["ans:q"], False),
+    ("idq(ans)", ["idq", "ans:q"], ["ans:q"], False),
+    ("fn fact(n) = if n < 1 then 1 else n * fact(n - 1)", [], ["fact"], False), ("fact(5)", ["fact"], ["ans:s"], False),
+    ("if v1 > 1 then v1 else 0", ["v1:s"], ["ans:s"], False),
+    # surface forms: comments, blank lines, `;` (also at the end of a line), unicode, number formats
+    ("7 + 1 # trailing comment", [], ["ans:s"], False), ("# a comment line\n2 + 2", [], ["ans:s"], False),
+    ("let a1 = 1; let a2 = 2", [], ["a1:s", "a2:s"], False), ("a1 + a2", ["a1:s", "a2:s"], ["ans:s"], False),
+    ("8 + 1;", [], ["ans:s"], False), ("let a3 = ans;", ["ans:s"], ["a3:s"], False), ("a3\n\n+ 0", ["a3:s"], ["ans:s"], False),
+    ("2 × 3", [], ["ans:s"], False), ("let α = 2", [], ["α:s"], False), ("α² + 1", ["α:s"], ["ans:s"], False),
+    ("1_000 + 0x10 + 1e3", [], ["ans:s"], False), ("2 m + 30 cm -> cm", [SI], ["ans:q"], False),
+    # names from standard-library modules
+    ("stoney_length", ["mod:units::stoney"], ["ans:q"], False), ("planck_length -> m", ["mod:units::planck"], ["ans:q"], False),
+    ("len([1, 2])", [LST], ["ans:s"], False), ("str_length(\"abc\")", [STR], ["ans:s"], False),
+    ("gcd(12, 18)", ["mod:math::number_theory"], ["ans:s"], False), ("pi", ["mod:math::constants"], ["ans:s"], False),
+    ("let v6 = 2 bit", ["mod:units::bit"], ["v6:q"], False), ("quadratic_equation(1, 0, -1)", ["mod:extra::algebra"], ["ans:list"], False),
+    ("mean([1, 2, 3])", ["mod:math::statistics"], ["ans:s"], False), ("sqrt(16)", ["mod:core::functions"], ["ans:s"], False),
+    ("speed_of_light", ["mod:physics::constants"], ["ans:q"], False), ("2 hartree", ["mod:units::hartree"], ["ans:q"], False),
+    ("3 hours -> minutes", ["mod:units::time"], ["ans:q"], False), ("circle_area(1 m)", ["mod:math::geometry", SI], ["ans:q"], False),
 ]
+
+
+def item_usable(state, it):
+    return all(r in state for r in it[1]) and not (it[3] and all(p.split(":")[0] in state for p in it[2]))
+
+
+def item_apply(state, it):
+    """registers what the item defines; a sorted name replaces the other sorts of that name"""
+    for p in it[2]:
+        name = p.split(":")[0]
+        for t in [t for t in state if t.startswith(name + ":") and not t.startswith("mod:")]:
+            state.discard(t)
+        state.add(name)
+        state.add(p)
+
+
+def plan_item(rng, state, target, depth=0):
+    """lines that make `target` usable (imports and provider items for its unmet requirements, recursively),
+    followed by the target itself; registers everything in `state`.  Gives up (returns None) beyond depth 6."""
+    if depth > 6:
+        return None
+    lines = []
+    for req in target[1]:
+        if req in state:
+            continue
+        if req.startswith("mod:"):
+            m = req[4:]
+            state.update("mod:" + x for x in module_closure(m))
+            lines.append("use " + m)
+            continue
+        provs = [i for i in STD_ITEMS if (req in i[2] or req in [p.split(":")[0] for p in i[2]]) and i is not target
+                 and not (i[3] and all(p.split(":")[0] in state for p in i[2]))]
+        if not provs:
+            return None
+        sub = plan_item(rng, state, rng.choice(provs), depth + 1)
+        if sub is None:
+            return None
+        lines += sub
+    if not item_usable(state, target):
+        # an intermediate step replaced something (e.g. the sort of `ans`): re-establish once more
+        if depth > 5:
+            return None
+        again = plan_item(rng, state, target, depth + 3)
+        return None if again is None else lines + again
+    item_apply(state, target)
+    return lines + [target[0]]
+
+
+def usable_items(state, exclude_ans=False):
+    return [i for i in STD_ITEMS if item_usable(state, i)
+            and not (exclude_ans and any(r.split(":")[0] == "ans" for r in i[1]))]
+
+
 STD_BAD = {
     "unknown_module": ["use nosuch::mod", "use units::nosuch"],
     "parse": ["let = 3", "1 +", "fn (x) = 1", "struct { }"],
     "clash": ["let uq = 1", "unit v1", "unit uq: Dq", "fn meter(x) = x", "let ans = 1", "unit uw", "let uw = 2"],
-    "type": ["undefined_name_q", "1 + true", "let t1: Dq = 1", "f1(true, 2)", "v3 + 1", "P { b: 1 }", "let t2: Scalar = uw"],
+    "type": ["undefined_name_q", "1 + true", "let t1: Dq = 1", "f1(true, 2)", "v3 + 1", "P { b: 1 }", "let t2: Scalar = uw",
+             "fn w9(x) = y\n  where y = x + undefined_q", "fn w7(x: Scalar) -> Scalar = y\n  where y = \"s\"",
+             "let v1 = v1 + true", "value_of(\"abc\")", "ans.nofield"],
     "runtime": ["1 / 0", "assert(false)", "assert_eq(1, 2)", "error(\"boom\")", "let r1 = 1 / 0", "head([])",
-                "print(1)\nprint(2 / 0)"],
+                "print(1)\nprint(2 / 0)", "fn w8(x) = y\n  where y = 1 / (x - x)\nw8(1)", "let v1 = 1 / 0",
+                "7 + 1\nlet k9 = ans / 0", "unit uz = 1 / 0"],
 }
 
 _closure_cache = {}
@@ -200,16 +314,12 @@ def module_closure(m):
 
 def gen_std_session(rng, n_inputs=None):
     n_inputs = n_inputs or rng.randrange(6, 13)
-    mods = rng.sample(STD_MODS, rng.randrange(2, 5))
+    mods = list(dict.fromkeys(rng.sample(STD_MODS, rng.randrange(2, 6))))
     have = set()          # what the generator believes is defined
 
-    def usable():
-        return [it for it in STD_ITEMS if all(r in have for r in it[1]) and not (it[3] and all(p in have for p in it[2]))]
-
     def take(state):
-        it = rng.choice([i for i in STD_ITEMS if all(r in state for r in i[1])
-                         and not (i[3] and all(p in state for p in i[2]))])
-        state.update(it[2])
+        it = rng.choice(usable_items(state))
+        item_apply(state, it)
         return it[0]
 
     inputs = []
@@ -236,12 +346,22 @@ def gen_std_session(rng, n_inputs=None):
         elif pending and r < 0.7:
             m = pending.pop(0)
             have.update("mod:" + x for x in module_closure(m))
-            users = [it[0] for it in STD_ITEMS if "mod:" + m in it[1] and all(q in have for q in it[1])]
+            users = [it[0] for it in usable_items(have) if "mod:" + m in it[1]]
             inputs.append("use " + m + ("\n" + rng.choice(users) if users and rng.random() < 0.8 else ""))
         elif r < 0.5:
             m = rng.choice(mods)
             have.update("mod:" + x for x in module_closure(m))
             inputs.append("use " + m)
+        elif r < 0.7:
+            got = plan_item(rng, have, rng.choice(STD_ITEMS))
+            if got:
+                # spread the plan over one or two inputs
+                cut = rng.randrange(1, len(got) + 1)
+                inputs.append("\n".join(got[:cut]))
+                if got[cut:]:
+                    inputs.append("\n".join(got[cut:]))
+            else:
+                inputs.append(take(have))
         else:
             inputs.append("\n".join(take(have) for _ in range(rng.randrange(1, 3))))
     return {"kind": "std", "mods": mods, "inputs": inputs}
